@@ -26,7 +26,7 @@ import json
 import os
 import random
 
-from . import model, report
+from . import model, refmodels, report
 from .model import AnalysisError
 
 FLIP = {ast.Lt: ast.LtE, ast.LtE: ast.Lt, ast.Gt: ast.GtE, ast.GtE: ast.Gt, ast.Eq: ast.NotEq, ast.NotEq: ast.Eq, ast.In: ast.NotIn, ast.NotIn: ast.In, ast.Is: ast.IsNot, ast.IsNot: ast.Is}
@@ -146,6 +146,7 @@ def run_property(prop: str, mod, functions: list[str], limit: int, seed: int):
             repo = model.Repo(model.REPO_ROOT, overrides=overrides, share=base)
             ctx = report.Ctx(prop, "thorough", seed, repo)
             mod.run(ctx)
+            refmodels.check(ctx)
             failing = [o for o in ctx.obligations if not o["ok"] and not any(report.matches(e, o) for e in known)]
             outcome = "fired" if failing else "survived"
         except AnalysisError:
@@ -191,6 +192,7 @@ def _worker(args):
             repo = model.Repo(model.REPO_ROOT, overrides=overrides, share=base)
             ctx = report.Ctx(prop, "thorough", 0, repo)
             mod.run(ctx)
+            refmodels.check(ctx)
             failing = [o for o in ctx.obligations if not o["ok"] and not any(report.matches(e, o) for e in known)]
             if failing:
                 outcome = "fired"
